@@ -72,10 +72,15 @@ class Wildcard(Base):
     def line(self, line: str) -> None:
         line = h.init_line(line)
         prefix_o, wildmask_o = self._create_prefix(line)
+        previous = (getattr(self, "_prefix", None), getattr(self, "_wildmask", None))
         self._prefix = prefix_o
         self._wildmask = wildmask_o
+        try:
+            ncwb, prefixlen = self._create_ncwb()
+        except NetmaskValueError:
+            self._prefix, self._wildmask = previous  # rejected line must not be applied
+            raise
         self.ipnet = self._create_ipnet()
-        ncwb, prefixlen = self._create_ncwb()
         self._ncwb = ncwb
         self._prefixlen = prefixlen
 
